@@ -383,7 +383,7 @@ def _cases(tier):
 
 SUBS = [
     Sub('compute-and-load', oracle, _classify, strategy=_cases,
-        budget={'quick': 250, 'thorough': 400}, sample=_sample, purge_every=10,
+        budget={'quick': 250, 'thorough': 1000}, sample=_sample, purge_every=10,
         case_timeout=600,
         require_tags=('converging-paths-above-corpus-word', 'ambiguous-word', 'has-cycle',
                       'satellite', 'corpus-word-in-satellite', 'unknown-token',
